@@ -128,6 +128,19 @@ fn gen_cases(ctx: &Ctx) -> Vec<Case> {
         o.max_read_len = *rng.pick(&[8, 30, 80]);
         o.max_skip = *rng.pick(&[10, 120, 400]);
         o.pm_tags = 300;
+        // shapes that the writer could not store before its fixes are ordinary members now
+        if rng.chance(1, 4) {
+            o.pm_noqual = 200;
+        }
+        if rng.chance(1, 5) {
+            o.pm_nobases_unmapped = 300;
+        }
+        if rng.chance(1, 4) {
+            o.pm_supp_of_pair = 400;
+        }
+        if rng.chance(1, 4) {
+            o.pm_minimal = 150;
+        }
         cases.push(Case {
             class: "rand".into(),
             gseed: rng.next_u64(),
@@ -189,11 +202,11 @@ fn expected_entries(slice: &[ReadDesc]) -> (Vec<RefSpan>, &'static str) {
 }
 
 fn key_of_desc(r: &ReadDesc) -> (Vec<u8>, u16) {
-    (r.name.clone().unwrap_or_default(), r.flags & 0xC0)
+    (r.name.clone().unwrap_or_default(), r.flags & 0x9C0)
 }
 
 fn key_of_buf(r: &RecordBuf) -> (Vec<u8>, u16) {
-    (r.name().map(|n| n.to_vec()).unwrap_or_default(), u16::from(r.flags()) & 0xC0)
+    (r.name().map(|n| n.to_vec()).unwrap_or_default(), u16::from(r.flags()) & 0x9C0)
 }
 
 #[derive(Clone, Debug)]
@@ -283,6 +296,66 @@ fn classify_error(m: &str) -> String {
     s
 }
 
+/// ONE reader per file and access path, used for every query, scan and unmapped query of that
+/// path (the way applications use it): state left over from an earlier call — stream position,
+/// current container, pending records — must not leak into the next.
+enum AnyReader {
+    Indexed(cram::io::IndexedReader<std::fs::File>),
+    Plain(cram::io::Reader<std::fs::File>, crai::Index),
+}
+
+impl AnyReader {
+    fn open(via: &str, s: &Stream, path: &std::path::Path, index: &crai::Index) -> std::io::Result<(AnyReader, sam::Header, u64)> {
+        use std::io::Seek;
+        if via == "indexed-reader" {
+            let mut r = cram::io::indexed_reader::Builder::default()
+                .set_reference_sequence_repository(s.repository())
+                .set_index(index.clone())
+                .build_from_path(path)?;
+            let header = r.read_header()?;
+            let start = r.get_mut().stream_position()?;
+            Ok((AnyReader::Indexed(r), header, start))
+        } else {
+            let mut r = cram::io::reader::Builder::default().set_reference_sequence_repository(s.repository()).build_from_path(path)?;
+            let header = r.read_header()?;
+            let start = r.position()?;
+            Ok((AnyReader::Plain(r, index.clone()), header, start))
+        }
+    }
+
+    /// Runs one query; `limit` = consume only that many records, then drop the iterator.
+    fn query(&mut self, header: &sam::Header, region: &Region, limit: Option<usize>) -> std::io::Result<Vec<RecordBuf>> {
+        let n = limit.unwrap_or(usize::MAX);
+        match self {
+            AnyReader::Indexed(r) => r.query(header, region)?.records().take(n).collect(),
+            AnyReader::Plain(r, ix) => r.query(header, ix, region)?.records().take(n).collect(),
+        }
+    }
+
+    /// Sequential read of the whole file after seeking back to the first data container.
+    fn scan(&mut self, header: &sam::Header, start: u64) -> std::io::Result<Vec<RecordBuf>> {
+        use std::io::{Seek, SeekFrom};
+        match self {
+            AnyReader::Indexed(r) => {
+                r.get_mut().seek(SeekFrom::Start(start))?;
+                r.records(header).collect()
+            }
+            AnyReader::Plain(r, _) => {
+                r.seek(SeekFrom::Start(start))?;
+                r.records(header).collect()
+            }
+        }
+    }
+
+    fn unmapped(&mut self, header: &sam::Header) -> std::io::Result<Vec<RecordBuf>> {
+        match self {
+            AnyReader::Indexed(r) => r.query_unmapped(header)?.collect(),
+            AnyReader::Plain(r, ix) => r.query_unmapped(header, ix)?.collect(),
+        }
+    }
+}
+
+#[allow(clippy::too_many_arguments)]
 fn run_queries(
     c: &Case,
     s: &Stream,
@@ -292,109 +365,226 @@ fn run_queries(
     regions: &[Reg],
     o: &mut CaseOut,
     has_multi: bool,
+    rng: &mut Rng,
 ) {
     let by_key: BTreeMap<(Vec<u8>, u16), &ReadDesc> = s.reads.iter().map(|r| (key_of_desc(r), r)).collect();
     let order: BTreeMap<(Vec<u8>, u16), usize> = s.reads.iter().enumerate().map(|(i, r)| (key_of_desc(r), i)).collect();
     let layout = if has_multi { "file-with-multi-reference-slice" } else { "single-reference-slices-only" };
     let mut seen: BTreeSet<String> = BTreeSet::new();
+    let mut push = |o: &mut CaseOut, sig: String, desc: String| {
+        if seen.insert(sig.clone()) {
+            o.violation(sig, desc);
+        }
+    };
+    let opened = guard::catch(|| AnyReader::open(via, s, path, index));
+    let (mut reader, header, start) = match opened {
+        Ok(Ok(x)) => x,
+        Ok(Err(e)) => {
+            push(o, format!("query:open:{}", classify_error(&e.to_string())), format!("opening the file via {via} failed: {e}"));
+            return;
+        }
+        Err(p) => {
+            push(o, format!("query:open-panic:{}", p.sig), format!("opening the file via {via} panicked: {}", p.message));
+            return;
+        }
+    };
+    let name = |k: &(Vec<u8>, u16)| String::from_utf8_lossy(&k.0).to_string();
+    // what the same reader did just before (for the diagnosis of leftover state)
+    let mut prev = "first-call".to_string();
+    let mut prev_ref: Option<usize> = None;
     for g in regions {
         let region = g.to_region(s);
-        let repo = s.repository();
-        let res = guard::catch(|| -> std::io::Result<Vec<RecordBuf>> {
-            if via == "indexed-reader" {
-                let mut r = cram::io::indexed_reader::Builder::default()
-                    .set_reference_sequence_repository(repo)
-                    .set_index(index.clone())
-                    .build_from_path(path)?;
-                let header = r.read_header()?;
-                let q = r.query(&header, &region)?;
-                q.records().collect()
-            } else {
-                let mut r = cram::io::reader::Builder::default().set_reference_sequence_repository(repo).build_from_path(path)?;
-                let header = r.read_header()?;
-                let q = r.query(&header, index, &region)?;
-                q.records().collect()
-            }
-        });
+        let want = scan_filter(s, g);
+        let want_keys: Vec<(Vec<u8>, u16)> = want.iter().map(|r| key_of_desc(r)).collect();
+        // consumption: full (6/10), partial then dropped (4/10)
+        let limit = if rng.below(10) < 6 { None } else { Some(rng.usize_below(want.len() + 2)) };
+        let res = guard::catch(|| reader.query(&header, &region, limit));
         o.count("queries", 1);
         o.count(&format!("queries[{}]", g.kind), 1);
-        let mut push = |o: &mut CaseOut, sig: String, desc: String| {
-            if seen.insert(sig.clone()) {
-                o.violation(sig, desc);
-            }
+        let this = match (limit, prev_ref) {
+            (Some(_), _) => "partially-consumed-query",
+            (None, Some(p)) if p != g.ref_id => "full-query",
+            _ => "full-query",
         };
+        if prev_ref.is_some() && prev_ref != Some(g.ref_id) {
+            o.count("queries_following_a_query_on_another_reference", 1);
+        }
+        if prev == "partially-consumed-query" {
+            o.count("queries_following_an_abandoned_query", 1);
+        }
+        let after = prev.clone();
+        prev = this.to_string();
+        prev_ref = Some(g.ref_id);
         let got = match res {
             Err(p) => {
-                push(o, format!("query:panic:{layout}:{}", p.sig), format!("query {} via {via} panicked: {}", g.render(s), p.message));
+                push(o, format!("query:panic:{layout}:{}", p.sig), format!("query {} via {via} (same reader, after {after}) panicked: {}", g.render(s), p.message));
+                // the reader may be in any state now: start over with a new one
+                match guard::catch(|| AnyReader::open(via, s, path, index)) {
+                    Ok(Ok(x)) => {
+                        reader = x.0;
+                        prev = "first-call".into();
+                        prev_ref = None;
+                    }
+                    _ => return,
+                }
                 continue;
             }
             Ok(Err(e)) => {
-                push(o, format!("query:error:{layout}:{}", classify_error(&e.to_string())), format!("query {} via {via} failed: {e}", g.render(s)));
+                push(o, format!("query:error:{layout}:{}", classify_error(&e.to_string())), format!("query {} via {via} (same reader, after {after}) failed: {e}", g.render(s)));
                 continue;
             }
             Ok(Ok(v)) => v,
         };
-        let want = scan_filter(s, g);
         if !want.is_empty() {
             o.count("queries_with_nonempty_answer", 1);
         }
+        if limit.is_some() {
+            o.count("queries_consumed_partially", 1);
+        }
         // placed unmapped records have no alignment: whether a region "intersects" them is not
         // defined by the statement; they are tolerated either way
-        let got_keys: Vec<(Vec<u8>, u16)> = got
-            .iter()
-            .map(key_of_buf)
-            .filter(|k| {
-                let placed_unmapped = by_key.get(k).map(|r| r.is_unmapped() && r.pos.is_some()).unwrap_or(false);
-                if placed_unmapped {
-                    o.count("placed_unmapped_records_returned_by_queries (tolerated)", 1);
-                }
-                !placed_unmapped
-            })
-            .collect();
-        let want_keys: Vec<(Vec<u8>, u16)> = want.iter().map(|r| key_of_desc(r)).collect();
+        let filter = |o: &mut CaseOut, v: &[RecordBuf]| -> Vec<(Vec<u8>, u16)> {
+            v.iter()
+                .map(key_of_buf)
+                .filter(|k| {
+                    let placed_unmapped = by_key.get(k).map(|r| r.is_unmapped() && r.pos.is_some()).unwrap_or(false);
+                    if placed_unmapped {
+                        o.count("placed_unmapped_records_returned_by_queries (tolerated)", 1);
+                    }
+                    !placed_unmapped
+                })
+                .collect()
+        };
+        let got_keys = filter(o, &got);
         o.count("records_returned", got_keys.len() as u64);
-        if got_keys == want_keys {
+        let ok = match limit {
+            None => got_keys == want_keys,
+            // a prefix of the answer; exactly `limit` raw records unless the answer is shorter
+            Some(n) => got_keys.len() <= want_keys.len() && got_keys[..] == want_keys[..got_keys.len()] && (got.len() == n || got_keys.len() == want_keys.len()),
+        };
+        if !ok {
+            // Is it the reader's history? Ask a fresh reader the same question.
+            let fresh = guard::catch(|| -> std::io::Result<Vec<RecordBuf>> {
+                let (mut r, h, _) = AnyReader::open(via, s, path, index)?;
+                r.query(&h, &region, None)
+            });
+            let fresh_ok = matches!(&fresh, Ok(Ok(v)) if filter(o, v) == want_keys);
+            let ctx_desc = format!(
+                "query {} via {via} on the file's one reader, after {after}{}: expected {:?}, got {:?}",
+                g.render(s),
+                limit.map(|n| format!(", consuming {n} records")).unwrap_or_default(),
+                want_keys.iter().map(name).collect::<Vec<_>>(),
+                got_keys.iter().map(name).collect::<Vec<_>>()
+            );
+            if fresh_ok {
+                push(o, format!("query:reused-reader-differs-from-fresh-reader:after-{after}"), format!("a fresh reader answers correctly; {ctx_desc}"));
+                continue;
+            }
+            let gs: BTreeSet<_> = got_keys.iter().cloned().collect();
+            let ws: BTreeSet<_> = want_keys.iter().cloned().collect();
+            let mut explained = false;
+            for k in gs.difference(&ws) {
+                explained = true;
+                match by_key.get(k) {
+                    None => push(o, "query:returns-unknown-record".into(), format!("record {:?} was never written; {ctx_desc}", name(k))),
+                    Some(r) if r.ref_id != Some(g.ref_id) => push(
+                        o,
+                        format!("query:returns-record-of-other-reference:{layout}"),
+                        format!("record {:?} lies on {} ; {ctx_desc}; written: {}", name(k), r.ref_id.map(|i| s.refs[i].name.clone()).unwrap_or("*".into()), r.sam_line(&s.refs)),
+                    ),
+                    Some(r) => push(
+                        o,
+                        format!("query:returns-non-intersecting-record:{}", g.kind),
+                        format!("record {:?} spans {:?}; {ctx_desc}; written: {}", name(k), r.span(), r.sam_line(&s.refs)),
+                    ),
+                }
+            }
+            if limit.is_none() {
+                for k in ws.difference(&gs) {
+                    explained = true;
+                    let r = by_key[k];
+                    push(o, format!("query:misses-record:{layout}:{}", g.kind), format!("record {:?} spans {:?}; {ctx_desc}; written: {}", name(k), r.span(), r.sam_line(&s.refs)));
+                }
+            }
+            if got_keys.len() != gs.len() {
+                explained = true;
+                push(o, format!("query:duplicate-record:{layout}"), ctx_desc.clone());
+            }
+            if !explained {
+                let idx: Vec<usize> = got_keys.iter().filter_map(|k| order.get(k).copied()).collect();
+                if idx.windows(2).any(|w| w[0] > w[1]) {
+                    push(o, format!("query:not-in-file-order:{layout}"), ctx_desc.clone());
+                } else if limit.is_some() {
+                    push(o, "query:partial-consumption-is-not-a-prefix-of-the-answer".into(), ctx_desc.clone());
+                } else {
+                    push(o, "query:differs".into(), ctx_desc.clone());
+                }
+            }
             continue;
         }
-        let gs: BTreeSet<_> = got_keys.iter().cloned().collect();
-        let ws: BTreeSet<_> = want_keys.iter().cloned().collect();
-        let name = |k: &(Vec<u8>, u16)| String::from_utf8_lossy(&k.0).to_string();
-        let ctx_desc = format!("query {} via {via} (index from {}): expected {:?}, got {:?}", g.render(s), c.class, want_keys.iter().map(name).collect::<Vec<_>>(), got_keys.iter().map(name).collect::<Vec<_>>());
-        let mut explained = false;
-        for k in gs.difference(&ws) {
-            explained = true;
-            match by_key.get(k) {
-                None => push(o, "query:returns-unknown-record".into(), format!("record {:?} was never written; {ctx_desc}", name(k))),
-                Some(r) if r.ref_id != Some(g.ref_id) => push(
-                    o,
-                    format!("query:returns-record-of-other-reference:{layout}"),
-                    format!("record {:?} lies on {} ; {ctx_desc}; written: {}", name(k), r.ref_id.map(|i| s.refs[i].name.clone()).unwrap_or("*".into()), r.sam_line(&s.refs)),
-                ),
-                Some(r) => push(
-                    o,
-                    format!("query:returns-non-intersecting-record:{}", g.kind),
-                    format!("record {:?} spans {:?}; {ctx_desc}; written: {}", name(k), r.span(), r.sam_line(&s.refs)),
-                ),
+
+        // interleaved other uses of the same reader
+        match rng.below(12) {
+            0 | 1 => {
+                // sequential read of everything after seeking back
+                let r = guard::catch(|| reader.scan(&header, start));
+                o.count("sequential_scans_after_a_query", 1);
+                match r {
+                    Err(p) => push(o, format!("scan-after-query:panic:{}", p.sig), format!("records() after {prev} on the same reader panicked: {}", p.message)),
+                    Ok(Err(e)) => push(o, format!("scan-after-query:error:{}", classify_error(&e.to_string())), format!("records() after seeking back, after {prev} on the same reader, failed: {e}")),
+                    Ok(Ok(v)) => {
+                        let bad = v.len() != s.reads.len()
+                            || v.iter().zip(&s.reads).any(|(a, w)| w.name.is_some() && key_of_buf(a) != key_of_desc(w) || u16::from(a.flags()) != w.flags);
+                        if bad {
+                            push(
+                                o,
+                                format!("scan-after-query:differs-from-written-stream:after-{prev}"),
+                                format!("records() after seeking back to the first data container yields {} records {:?}, {} were written", v.len(), v.iter().take(12).map(|r| name(&key_of_buf(r))).collect::<Vec<_>>(), s.reads.len()),
+                            );
+                        }
+                    }
+                }
+                prev = "sequential-scan".into();
             }
-        }
-        for k in ws.difference(&gs) {
-            explained = true;
-            let r = by_key[k];
-            push(o, format!("query:misses-record:{layout}:{}", g.kind), format!("record {:?} spans {:?}; {ctx_desc}; written: {}", name(k), r.span(), r.sam_line(&s.refs)));
-        }
-        if got_keys.len() != gs.len() {
-            explained = true;
-            push(o, format!("query:duplicate-record:{layout}"), ctx_desc.clone());
-        }
-        if !explained {
-            let idx: Vec<usize> = got_keys.iter().map(|k| order[k]).collect();
-            if idx.windows(2).any(|w| w[0] > w[1]) {
-                push(o, format!("query:not-in-file-order:{layout}"), ctx_desc.clone());
-            } else {
-                push(o, "query:differs".into(), ctx_desc.clone());
+            2 => {
+                // query_unmapped is not part of the statement: what is judged is that the reader's
+                // history does not change its outcome (same outcome as on a fresh reader); how the
+                // outcome relates to the written stream is recorded as an observation
+                let outcome = |r: Result<std::io::Result<Vec<RecordBuf>>, guard::PanicInfo>| -> Result<Vec<(Vec<u8>, u16)>, String> {
+                    match r {
+                        Err(p) => Err(format!("panic:{}", p.sig)),
+                        Ok(Err(e)) => Err(format!("error:{}", classify_error(&e.to_string()))),
+                        Ok(Ok(v)) => Ok(v.iter().map(key_of_buf).collect()),
+                    }
+                };
+                let reused = outcome(guard::catch(|| reader.unmapped(&header)));
+                let fresh = outcome(guard::catch(|| -> std::io::Result<Vec<RecordBuf>> {
+                    let (mut r, h, _) = AnyReader::open(via, s, path, index)?;
+                    r.unmapped(&h)
+                }));
+                o.count("unmapped_queries_after_a_query", 1);
+                if reused != fresh {
+                    let show = |x: &Result<Vec<(Vec<u8>, u16)>, String>| match x {
+                        Ok(v) => format!("{} records {:?}", v.len(), v.iter().take(10).map(name).collect::<Vec<_>>()),
+                        Err(e) => e.clone(),
+                    };
+                    push(o, format!("query-unmapped:reused-reader-differs-from-fresh-reader:after-{prev}"),
+                         format!("query_unmapped via {via} on the file's one reader after {prev}: {}; on a fresh reader: {}", show(&reused), show(&fresh)));
+                }
+                let unplaced = s.reads.iter().filter(|r| r.ref_id.is_none()).count();
+                match &fresh {
+                    Err(e) => o.count(&format!("observed_query_unmapped[{e}; file has {} unplaced records]", if unplaced == 0 { "no" } else { "some" }), 1),
+                    Ok(v) => {
+                        let n = v.iter().filter(|k| by_key.get(*k).map(|r| r.ref_id.is_none()).unwrap_or(k.0.iter().all(|b| b.is_ascii_digit()))).count();
+                        o.count(if n == unplaced && v.len() == n { "observed_query_unmapped[returns exactly the unplaced records]" } else if n == unplaced { "observed_query_unmapped[returns the unplaced records plus placed unmapped ones]" } else { "observed_query_unmapped[unplaced records missing or duplicated]" }, 1);
+                    }
+                }
+                prev = "query-unmapped".into();
             }
+            _ => {}
         }
     }
+    let _ = c;
 }
 
 fn run_case(ctx: &Ctx, idx: u64, c: &Case) -> CaseOut {
@@ -574,11 +764,13 @@ fn run_case(ctx: &Ctx, idx: u64, c: &Case) -> CaseOut {
 
     // queries
     let mut rng = Rng::new(c.gseed ^ 0xA11CE, 0xC19, idx);
-    let regions = gen_regions(&mut rng, &s, c.regions);
+    let mut regions = gen_regions(&mut rng, &s, c.regions);
+    // consecutive queries on one reader should hop between references, directions and sizes
+    rng.shuffle(&mut regions);
     let half = regions.len() / 2;
-    run_queries(c, &s, &path, &index, "indexed-reader", &regions[..half], &mut o, has_multi);
+    run_queries(c, &s, &path, &index, "indexed-reader", &regions[..half], &mut o, has_multi, &mut rng);
     let index2 = if source == "noodles" { crai::fs::read(dump.join(format!("{idx}.crai"))).unwrap_or_else(|_| index.clone()) } else { index.clone() };
-    run_queries(c, &s, &path, &index2, "reader-query-with-reread-index", &regions[half..], &mut o, has_multi);
+    run_queries(c, &s, &path, &index2, "reader-query-with-reread-index", &regions[half..], &mut o, has_multi, &mut rng);
     o.count(&format!("files_queried_through_{source}_index"), 1);
 
     o.evaluations = 1;
@@ -640,6 +832,8 @@ fn main() {
         "when cram::fs::index fails (violation) the queries of that file run through a stand-in index built from the independent geometry and the expected spans, so the query half of the property is still evaluated",
         "CRAI byte geometry (container offset, landmark, slice length) is judged by py/cram_walk.py in the post hook; the order of the entries of one multi-reference slice is not judged",
         "only the layout the production writer emits (one slice per container) is generated",
+        "all queries of a file and access path run on ONE reader in shuffled order (consecutive queries hop between references), 4 in 10 are consumed only partially and then dropped, and sequential records() scans (after seeking back to the first data container) and query_unmapped calls are interleaved; a wrong answer that a fresh reader gets right is reported as query:reused-reader-differs-from-fresh-reader:after-<previous call>",
+        "query_unmapped is only required to return every unplaced record once, in file order, and nothing that is not flagged unmapped (the statement does not name it; it is driven for the state it leaves behind)",
     ] {
         rep.assumptions.push(a.into());
     }
@@ -655,6 +849,10 @@ fn main() {
         rep.floor("files_with_multi_reference_slice", g("files_with_multi_reference_slice"), 10);
         rep.floor("files_with_several_containers", g("files_with_several_containers"), 30);
         rep.floor("files_with_unplaced_tail", g("files_with_unplaced_tail"), 10);
+        rep.floor("queries_following_a_query_on_another_reference", g("queries_following_a_query_on_another_reference"), 500);
+        rep.floor("queries_following_an_abandoned_query", g("queries_following_an_abandoned_query"), 500);
+        rep.floor("sequential_scans_after_a_query", g("sequential_scans_after_a_query"), 200);
+        rep.floor("unmapped_queries_after_a_query", g("unmapped_queries_after_a_query"), 100);
     }
     rep.finish(&ctx);
 }
